@@ -1309,174 +1309,6 @@ Theorem C17_relayout_udp : forall fx c now br st li src sport d1 d2 m1 m2 r1 r2 
 Proof. first [ exact C17.C17_relayout_udp | intros; eapply C17.C17_relayout_udp; eassumption ]. Qed.
 End P_C17.
 
-(* ------------------------------------------------------------------ C04 *)
-From Model Require Import Bytes Wire Uri Hdr Message Msg StaticRoute RoundRobin Pins Proxy RunProxy SpecC14 SpecProxy SpecProxy2.
-From Model.proofs Require C04.
-Section P_C04.
-Import C04.
-Theorem C04_bind : forall e peer port from rs tcp m x g d,
-  is_request m = false ->
-  alookup (join_host_port peer port) (ps_backends (x_p x)) = Some g ->
-  method_of m = Ok (s2b "INVITE") -> dialog_of m = Ok d ->
-  let addr := join_host_port peer port in
-  let life := pins_lifetime (ps_pins (x_p x)) (get_expires m 0) in
-  0 <= life ->
-  exists x', process_message e peer port from rs tcp m x = Ok x' /\
-    pin_at d (pin_val_backend addr g) (e_now e + life) (ps_pins (x_p x')) /\
-    (forall t, t < e_now e + life -> snd (pins_get t d (ps_pins (x_p x'))) = Some (pin_val_backend addr g)) /\
-    static_eq (x_p x) (x_p x').
-Proof. first [ exact C04.C04_bind | intros; eapply C04.C04_bind; eassumption ]. Qed.
-Theorem C04_bind_subscribe : forall e peer port from rs tcp m x host hport tr g d,
-  is_request m = false ->
-  relay_hop m = Ok (host, hport, tr) ->
-  alookup (host ++ ":"%char :: itoa hport) (ps_backends (x_p x)) = Some g ->
-  method_of m = Ok (s2b "SUBSCRIBE") -> dialog_of m = Ok d ->
-  let addr := host ++ ":"%char :: itoa hport in
-  let life := pins_lifetime (ps_pins (x_p x)) (get_expires m 0) in
-  0 <= life ->
-  exists x', process_message e peer port from rs tcp m x = Ok x' /\
-    pin_at d (pin_val_backend addr g) (e_now e + life) (ps_pins (x_p x')) /\
-    (forall t, t < e_now e + life -> snd (pins_get t d (ps_pins (x_p x'))) = Some (pin_val_backend addr g)) /\
-    static_eq (x_p x) (x_p x').
-Proof. first [ exact C04.C04_bind_subscribe | intros; eapply C04.C04_bind_subscribe; eassumption ]. Qed.
-Theorem C04_sticky_step : forall e m x t0 d addr g ex dst,
-  fx_indialog_invite (e_fx e) = true ->
-  ps_has_rr (x_p x) = true -> first_transport (e_lc e) = Some t0 ->
-  is_request m = true -> dialog_of m = Ok d ->
-  pin_at d (pin_val_backend addr g) ex (ps_pins (x_p x)) -> e_now e < ex ->
-  alookup addr (ps_backends (x_p x)) = Some g -> gen_ok g -> addr_dest addr = Some dst ->
-  let b := fwd_bytes e t0 (x_p x) m in
-  let x' := fst (send_to_backend e m x) in
-  (* exactly one datagram, to the pinned backend (none at all if it exceeds a datagram) *)
-  x_outs x' = x_outs x ++ (if fits_datagram b then [(dst, b)] else []) /\
-  (* the rotation did not move, the members did not change *)
-  ps_rr (x_p x') = ps_rr (x_p x) /\ ps_backends (x_p x') = ps_backends (x_p x) /\
-  (* the pin stays, except after a terminating NOTIFY which removes it after having used it *)
-  ((forall c, snd (s_get_cseq m) = Ok c -> trans_key e c <> d) ->
-   if notify_terminated (req_method m) m
-   then alookup d (p_tab (ps_pins (x_p x'))) = None
-   else pin_at d (pin_val_backend addr g) ex (ps_pins (x_p x'))).
-Proof. first [ exact C04.C04_sticky_step | intros; eapply C04.C04_sticky_step; eassumption ]. Qed.
-Theorem C04_sticky_step_reverse : forall e m m' x t0 d addr g ex dst cid f t f' t',
-  get_raw (s2b "Call-ID") m = Ok cid -> get_raw (s2b "Call-ID") m' = Ok cid ->
-  snd (s_get_from m) = Ok f -> snd (s_get_to m) = Ok t ->
-  snd (s_get_from m') = Ok f' -> snd (s_get_to m') = Ok t' ->
-  fromto_tag f' = fromto_tag t -> fromto_tag t' = fromto_tag f ->
-  dialog_addr (fromto_addr_spec f') = dialog_addr (fromto_addr_spec t) ->
-  dialog_addr (fromto_addr_spec t') = dialog_addr (fromto_addr_spec f) ->
-  dialog_of m = Ok d ->
-  fx_indialog_invite (e_fx e) = true -> ps_has_rr (x_p x) = true -> first_transport (e_lc e) = Some t0 ->
-  is_request m' = true ->
-  pin_at d (pin_val_backend addr g) ex (ps_pins (x_p x)) -> e_now e < ex ->
-  alookup addr (ps_backends (x_p x)) = Some g -> gen_ok g -> addr_dest addr = Some dst ->
-  let b := fwd_bytes e t0 (x_p x) m' in
-  let x' := fst (send_to_backend e m' x) in
-  x_outs x' = x_outs x ++ (if fits_datagram b then [(dst, b)] else []) /\
-  ps_rr (x_p x') = ps_rr (x_p x) /\ ps_backends (x_p x') = ps_backends (x_p x).
-Proof. first [ exact C04.C04_sticky_step_reverse | intros; eapply C04.C04_sticky_step_reverse; eassumption ]. Qed.
-Theorem C04_preserved_message : forall e peer port from rs tcp m x x' d v ex,
-  process_message e peer port from rs tcp m x = Ok x' ->
-  msg_ok d (e_branch e) m ->
-  pin_at d v ex (ps_pins (x_p x)) -> e_now e < ex ->
-  pin_at d v ex (ps_pins (x_p x')) /\ mem_eq (x_p x) (x_p x').
-Proof. first [ exact C04.C04_preserved_message | intros; eapply C04.C04_preserved_message; eassumption ]. Qed.
-Theorem C04_unpinned_step : forall e m x t0,
-  ps_has_rr (x_p x) = true -> first_transport (e_lc e) = Some t0 -> is_request m = true ->
-  (forall d, dialog_of m = Ok d -> snd (pins_get (e_now e) d (ps_pins (x_p x))) = None) ->
-  let b := fwd_bytes e t0 (x_p x) m in
-  let x' := fst (send_to_backend e m x) in
-  x_outs x' = x_outs x ++
-    match snd (rr_dispatch (ps_rr (x_p x))) with
-    | Some a => if fits_datagram b then to_addr_outs a b else []
-    | None => []
-    end /\
-  ps_rr (x_p x') = fst (rr_dispatch (ps_rr (x_p x))).
-Proof. first [ exact C04.C04_unpinned_step | intros; eapply C04.C04_unpinned_step; eassumption ]. Qed.
-Theorem C04_preserved_history : forall li d addr g ex fx c h st st' outss,
-  run fx c st h = Ok (st', outss) ->
-  Forall (fun '(now, br, ev) => now < ex /\ ev_ok li d addr br ev) h ->
-  pinned li d addr g ex st -> pinned li d addr g ex st'.
-Proof. first [ exact C04.C04_preserved_history | intros; eapply C04.C04_preserved_history; eassumption ]. Qed.
-Theorem C04_sticky : forall c li lc t0 h1 tb bb peer port datab h2 tr br src sport datar st0 stf outss
-                            st1 o1 p1 mb restb mr restr g d dst,
-  nth_opt (c_listens c) li = Some lc -> first_transport lc = Some t0 ->
-  run all_fixed c st0 (h1 ++ (tb, bb, EvUdp li peer port datab) :: h2 ++ [(tr, br, EvUdp li src sport datar)])
-    = Ok (stf, outss) ->
-  (* when the response arrives its sender is a registered backend (generation g) *)
-  run all_fixed c st0 h1 = Ok (st1, o1) -> nth_p (st_proxies st1) li = Some p1 ->
-  let addr := join_host_port peer port in
-  alookup addr (ps_backends p1) = Some g -> gen_ok g -> ps_has_rr p1 = true -> addr_dest addr = Some dst ->
-  (* the binding response: INVITE in CSeq, both tags *)
-  parse_message datab = Ok (mb, restb) -> is_request mb = false ->
-  method_of mb = Ok (s2b "INVITE") -> dialog_of mb = Ok d ->
-  let life := pins_lifetime (ps_pins p1) (get_expires mb 0) in
-  0 <= life ->
-  (* in between: anything but a terminator for d, within the lifetime *)
-  Forall (fun '(now, b, ev) => now < tb + life /\ ev_ok li d addr b ev) h2 ->
-  (* the request: same dialog (either direction, any method), addressed to the service *)
-  parse_message datar = Ok (mr, restr) -> dialog_of mr = Ok d -> tr < tb + life ->
-  addressed_to_service (mk_env all_fixed c (item_rs_of true) li lc tr br) (udp_from lc) mr ->
-  exists b, last outss [] = if fits_datagram b then [(dst, b)] else [].
-Proof. first [ exact C04.C04_sticky | intros; eapply C04.C04_sticky; eassumption ]. Qed.
-Theorem C04_unpinned_balanced : forall e peer port from rs tcp m x x' t0,
-  addressed_to_service e from m -> process_message e peer port from rs tcp m x = Ok x' ->
-  ps_has_rr (x_p x) = true -> first_transport (e_lc e) = Some t0 ->
-  (forall d, dialog_of m = Ok d -> snd (pins_get (e_now e) d (ps_pins (x_p x))) = None) ->
-  exists b,
-    x_outs x' = x_outs x ++
-      match snd (rr_dispatch (ps_rr (x_p x))) with
-      | Some a => if fits_datagram b then to_addr_outs a b else []
-      | None => []
-      end /\
-    ps_rr (x_p x') = fst (rr_dispatch (ps_rr (x_p x))).
-Proof. first [ exact C04.C04_unpinned_balanced | intros; eapply C04.C04_unpinned_balanced; eassumption ]. Qed.
-Theorem C04_sticky_pinned : forall c li lc t0 h2 tr br src sport datar st2 stf outss mr restr addr g d ex dst,
-  nth_opt (c_listens c) li = Some lc -> first_transport lc = Some t0 ->
-  pinned li d addr g ex st2 -> gen_ok g -> addr_dest addr = Some dst ->
-  run all_fixed c st2 (h2 ++ [(tr, br, EvUdp li src sport datar)]) = Ok (stf, outss) ->
-  Forall (fun '(now, b, ev) => now < ex /\ ev_ok li d addr b ev) h2 ->
-  parse_message datar = Ok (mr, restr) -> dialog_of mr = Ok d -> tr < ex ->
-  addressed_to_service (mk_env all_fixed c (item_rs_of true) li lc tr br) (udp_from lc) mr ->
-  exists b, last outss [] = if fits_datagram b then [(dst, b)] else [].
-Proof. first [ exact C04.C04_sticky_pinned | intros; eapply C04.C04_sticky_pinned; eassumption ]. Qed.
-Theorem C04_legacy_refuted :
-  let h := firstn 4 ex_hist in
-  let st3 := match run legacy_fixes ex_cfg ex_st0 (firstn 3 ex_hist) with Ok (s, _) => s | _ => ex_st0 end in
-  (* the binding is there and live when the re-INVITE arrives (t = 4 s) *)
-  match nth_p (st_proxies st3) 0 with
-  | Some p => snd (pins_get (sec 4) ex_d (ps_pins p)) = Some (pin_val_backend (s2b "10.0.0.12:5070") 1)
-  | None => False
-  end /\
-  dialog_of (msg_of ex_reinvite) = Ok ex_d /\
-  last (dests (run legacy_fixes ex_cfg ex_st0 h)) [] = [DUdp (s2b "10.0.0.11") 5070] /\
-  last (dests (run all_fixed ex_cfg ex_st0 h)) [] = [DUdp (s2b "10.0.0.12") 5070].
-Proof. first [ exact C04.C04_legacy_refuted | intros; eapply C04.C04_legacy_refuted; eassumption ]. Qed.
-Theorem C04_preserved : forall li d addr g ex fx c now branch st ev st' outs,
-  proxy_step fx c now branch st ev = Ok (st', outs) ->
-  ev_ok li d addr branch ev -> now < ex -> pinned li d addr g ex st -> pinned li d addr g ex st'.
-Proof. first [ exact C04.C04_preserved | intros; eapply C04.C04_preserved; eassumption ]. Qed.
-Theorem C04_dialog_of_symmetric : forall m m' cid f t f' t',
-  get_raw (s2b "Call-ID") m = Ok cid -> get_raw (s2b "Call-ID") m' = Ok cid ->
-  snd (s_get_from m) = Ok f -> snd (s_get_to m) = Ok t ->
-  snd (s_get_from m') = Ok f' -> snd (s_get_to m') = Ok t' ->
-  fromto_tag f' = fromto_tag t -> fromto_tag t' = fromto_tag f ->
-  dialog_addr (fromto_addr_spec f') = dialog_addr (fromto_addr_spec t) ->
-  dialog_addr (fromto_addr_spec t') = dialog_addr (fromto_addr_spec f) ->
-  dialog_of m' = dialog_of m.
-Proof. first [ exact C04.dialog_of_symmetric | intros; eapply C04.dialog_of_symmetric; eassumption ]. Qed.
-Theorem C04_bref_round_trip : forall b, match b with BObj _ g => gen_ok g | BRR => True end ->
-  bref_of_val (bref_val b) = b.
-Proof. first [ exact C04.bref_round_trip | intros; eapply C04.bref_round_trip; eassumption ]. Qed.
-Theorem C04_key_neq_dialog : forall meth branch d,
-  ~ In "-"%char meth -> has_prefix cookie branch = true ->
-  match index_byte "-"%char d with
-  | Some i => has_prefix cookie (skipn (S i) d) = false
-  | None => True
-  end ->
-  meth ++ "-"%char :: branch <> d.
-Proof. first [ exact C04.key_neq_dialog | intros; eapply C04.key_neq_dialog; eassumption ]. Qed.
-End P_C04.
-
 (* ------------------------------------------------------------------ C12 *)
 From Model Require Import Bytes Wire Uri Hdr Message Msg StaticRoute RoundRobin Pins Proxy RunProxy SpecC14 SpecProxy SpecProxy2.
 From Model.proofs Require C04 C12.
@@ -1644,3 +1476,214 @@ Proof. first [ exact C13.C13_keep_setting_decides | intros; eapply C13.C13_keep_
 Theorem C13_keep_env_default : forall env, to_keep_next_hop_route [] env = truthy env.
 Proof. first [ exact C13.C13_keep_env_default | intros; eapply C13.C13_keep_env_default; eassumption ]. Qed.
 End P_C13.
+
+(* ------------------------------------------------------------------ C04 *)
+From Model Require Import Bytes Wire Uri Hdr Message Msg StaticRoute RoundRobin Pins Proxy RunProxy SpecC14 SpecProxy SpecProxy2.
+From Model.proofs Require C04.
+Section P_C04.
+Import C04.
+Theorem C04_bind : forall e peer port from rs tcp m x g d,
+  is_request m = false ->
+  alookup (join_host_port peer port) (ps_backends (x_p x)) = Some g ->
+  method_of m = Ok (s2b "INVITE") -> dialog_of m = Ok d ->
+  let addr := join_host_port peer port in
+  let life := pins_lifetime (ps_pins (x_p x)) (get_expires m 0) in
+  0 <= life ->
+  exists x', process_message e peer port from rs tcp m x = Ok x' /\
+    pin_at d (pin_val_backend addr g) (e_now e + life) (ps_pins (x_p x')) /\
+    (forall t, t < e_now e + life -> snd (pins_get t d (ps_pins (x_p x'))) = Some (pin_val_backend addr g)) /\
+    static_eq (x_p x) (x_p x').
+Proof. first [ exact C04.C04_bind | intros; eapply C04.C04_bind; eassumption ]. Qed.
+Theorem C04_bind_subscribe : forall e peer port from rs tcp m x host hport tr g d,
+  is_request m = false ->
+  relay_hop m = Ok (host, hport, tr) ->
+  alookup (host ++ ":"%char :: itoa hport) (ps_backends (x_p x)) = Some g ->
+  method_of m = Ok (s2b "SUBSCRIBE") -> dialog_of m = Ok d ->
+  let addr := host ++ ":"%char :: itoa hport in
+  let life := pins_lifetime (ps_pins (x_p x)) (get_expires m 0) in
+  0 <= life ->
+  exists x', process_message e peer port from rs tcp m x = Ok x' /\
+    pin_at d (pin_val_backend addr g) (e_now e + life) (ps_pins (x_p x')) /\
+    (forall t, t < e_now e + life -> snd (pins_get t d (ps_pins (x_p x'))) = Some (pin_val_backend addr g)) /\
+    static_eq (x_p x) (x_p x').
+Proof. first [ exact C04.C04_bind_subscribe | intros; eapply C04.C04_bind_subscribe; eassumption ]. Qed.
+Theorem C04_sticky_step : forall e m x t0 d addr g ex dst,
+  fx_indialog_invite (e_fx e) = true ->
+  ps_has_rr (x_p x) = true -> first_transport (e_lc e) = Some t0 ->
+  is_request m = true -> dialog_of m = Ok d ->
+  pin_at d (pin_val_backend addr g) ex (ps_pins (x_p x)) -> e_now e < ex ->
+  alookup addr (ps_backends (x_p x)) = Some g -> gen_ok g -> addr_dest addr = Some dst ->
+  let b := fwd_bytes e t0 (x_p x) m in
+  let x' := fst (send_to_backend e m x) in
+  (* exactly one datagram, to the pinned backend (none at all if it exceeds a datagram) *)
+  x_outs x' = x_outs x ++ (if fits_datagram b then [(dst, b)] else []) /\
+  (* the rotation did not move, the members did not change *)
+  ps_rr (x_p x') = ps_rr (x_p x) /\ ps_backends (x_p x') = ps_backends (x_p x) /\
+  (* the pin stays, except after a terminating NOTIFY which removes it after having used it *)
+  ((forall c, snd (s_get_cseq m) = Ok c -> trans_key e c <> d) ->
+   if notify_terminated (req_method m) m
+   then alookup d (p_tab (ps_pins (x_p x'))) = None
+   else pin_at d (pin_val_backend addr g) ex (ps_pins (x_p x'))).
+Proof. first [ exact C04.C04_sticky_step | intros; eapply C04.C04_sticky_step; eassumption ]. Qed.
+Theorem C04_sticky_step_reverse : forall e m m' x t0 d addr g ex dst cid f t f' t',
+  get_raw (s2b "Call-ID") m = Ok cid -> get_raw (s2b "Call-ID") m' = Ok cid ->
+  snd (s_get_from m) = Ok f -> snd (s_get_to m) = Ok t ->
+  snd (s_get_from m') = Ok f' -> snd (s_get_to m') = Ok t' ->
+  fromto_tag f' = fromto_tag t -> fromto_tag t' = fromto_tag f ->
+  dialog_addr (fromto_addr_spec f') = dialog_addr (fromto_addr_spec t) ->
+  dialog_addr (fromto_addr_spec t') = dialog_addr (fromto_addr_spec f) ->
+  dialog_of m = Ok d ->
+  fx_indialog_invite (e_fx e) = true -> ps_has_rr (x_p x) = true -> first_transport (e_lc e) = Some t0 ->
+  is_request m' = true ->
+  pin_at d (pin_val_backend addr g) ex (ps_pins (x_p x)) -> e_now e < ex ->
+  alookup addr (ps_backends (x_p x)) = Some g -> gen_ok g -> addr_dest addr = Some dst ->
+  let b := fwd_bytes e t0 (x_p x) m' in
+  let x' := fst (send_to_backend e m' x) in
+  x_outs x' = x_outs x ++ (if fits_datagram b then [(dst, b)] else []) /\
+  ps_rr (x_p x') = ps_rr (x_p x) /\ ps_backends (x_p x') = ps_backends (x_p x).
+Proof. first [ exact C04.C04_sticky_step_reverse | intros; eapply C04.C04_sticky_step_reverse; eassumption ]. Qed.
+Theorem C04_preserved_message : forall e peer port from rs tcp m x x' d v ex,
+  process_message e peer port from rs tcp m x = Ok x' ->
+  msg_ok d (e_branch e) m ->
+  pin_at d v ex (ps_pins (x_p x)) -> e_now e < ex ->
+  (* the pinned backend object is still registered (a pin whose object has left the set is forgotten
+     by the next request of its dialog, C04_stale_pin_balanced) *)
+  bref_alive (x_p x) (bref_of_val v) = true ->
+  pin_at d v ex (ps_pins (x_p x')) /\ mem_eq (x_p x) (x_p x').
+Proof. first [ exact C04.C04_preserved_message | intros; eapply C04.C04_preserved_message; eassumption ]. Qed.
+Theorem C04_unpinned_step : forall e m x t0,
+  ps_has_rr (x_p x) = true -> first_transport (e_lc e) = Some t0 -> is_request m = true ->
+  (forall d, dialog_of m = Ok d -> snd (pins_get (e_now e) d (ps_pins (x_p x))) = None) ->
+  let b := fwd_bytes e t0 (x_p x) m in
+  let x' := fst (send_to_backend e m x) in
+  x_outs x' = x_outs x ++
+    match snd (rr_dispatch (ps_rr (x_p x))) with
+    | Some a => if fits_datagram b then to_addr_outs a b else []
+    | None => []
+    end /\
+  ps_rr (x_p x') = fst (rr_dispatch (ps_rr (x_p x))).
+Proof. first [ exact C04.C04_unpinned_step | intros; eapply C04.C04_unpinned_step; eassumption ]. Qed.
+Theorem C04_stale_pin_balanced : forall e m x t0 d addr g ex,
+  fx_stale_pin (e_fx e) = true ->
+  ps_has_rr (x_p x) = true -> first_transport (e_lc e) = Some t0 ->
+  is_request m = true -> dialog_of m = Ok d ->
+  (* the dialog is bound, the binding has not expired ... *)
+  pin_at d (pin_val_backend addr g) ex (ps_pins (x_p x)) -> e_now e < ex ->
+  (* ... but the backend object it names is not registered any more *)
+  alookup addr (ps_backends (x_p x)) <> Some g -> gen_ok g ->
+  let b := fwd_bytes e t0 (x_p x) m in
+  let x' := fst (send_to_backend e m x) in
+  (* exactly what an unpinned request gets (C04_unpinned_step): the rotation's next backend *)
+  x_outs x' = x_outs x ++
+    match snd (rr_dispatch (ps_rr (x_p x))) with
+    | Some a => if fits_datagram b then to_addr_outs a b else []
+    | None => []
+    end /\
+  ps_rr (x_p x') = fst (rr_dispatch (ps_rr (x_p x))) /\
+  (* and the stale binding is gone *)
+  (fx_indialog_invite (e_fx e) = true ->
+   (forall c, snd (s_get_cseq m) = Ok c -> trans_key e c <> d) ->
+   alookup d (p_tab (ps_pins (x_p x'))) = None).
+Proof. first [ exact C04.C04_stale_pin_balanced | intros; eapply C04.C04_stale_pin_balanced; eassumption ]. Qed.
+Theorem C04_preserved_history : forall li d addr g ex fx c h st st' outss,
+  run fx c st h = Ok (st', outss) ->
+  Forall (fun '(now, br, ev) => now < ex /\ ev_ok li d addr br ev) h ->
+  gen_ok g ->
+  pinned li d addr g ex st -> pinned li d addr g ex st'.
+Proof. first [ exact C04.C04_preserved_history | intros; eapply C04.C04_preserved_history; eassumption ]. Qed.
+Theorem C04_sticky : forall c li lc t0 h1 tb bb peer port datab h2 tr br src sport datar st0 stf outss
+                            st1 o1 p1 mb restb mr restr g d dst,
+  nth_opt (c_listens c) li = Some lc -> first_transport lc = Some t0 ->
+  run all_fixed c st0 (h1 ++ (tb, bb, EvUdp li peer port datab) :: h2 ++ [(tr, br, EvUdp li src sport datar)])
+    = Ok (stf, outss) ->
+  (* when the response arrives its sender is a registered backend (generation g) *)
+  run all_fixed c st0 h1 = Ok (st1, o1) -> nth_p (st_proxies st1) li = Some p1 ->
+  let addr := join_host_port peer port in
+  alookup addr (ps_backends p1) = Some g -> gen_ok g -> ps_has_rr p1 = true -> addr_dest addr = Some dst ->
+  (* the binding response: INVITE in CSeq, both tags *)
+  parse_message datab = Ok (mb, restb) -> is_request mb = false ->
+  method_of mb = Ok (s2b "INVITE") -> dialog_of mb = Ok d ->
+  let life := pins_lifetime (ps_pins p1) (get_expires mb 0) in
+  0 <= life ->
+  (* in between: anything but a terminator for d, within the lifetime *)
+  Forall (fun '(now, b, ev) => now < tb + life /\ ev_ok li d addr b ev) h2 ->
+  (* the request: same dialog (either direction, any method), addressed to the service *)
+  parse_message datar = Ok (mr, restr) -> dialog_of mr = Ok d -> tr < tb + life ->
+  addressed_to_service (mk_env all_fixed c (item_rs_of true) li lc tr br) (udp_from lc) mr ->
+  exists b, last outss [] = if fits_datagram b then [(dst, b)] else [].
+Proof. first [ exact C04.C04_sticky | intros; eapply C04.C04_sticky; eassumption ]. Qed.
+Theorem C04_unpinned_balanced : forall e peer port from rs tcp m x x' t0,
+  addressed_to_service e from m -> process_message e peer port from rs tcp m x = Ok x' ->
+  ps_has_rr (x_p x) = true -> first_transport (e_lc e) = Some t0 ->
+  (forall d, dialog_of m = Ok d -> snd (pins_get (e_now e) d (ps_pins (x_p x))) = None) ->
+  exists b,
+    x_outs x' = x_outs x ++
+      match snd (rr_dispatch (ps_rr (x_p x))) with
+      | Some a => if fits_datagram b then to_addr_outs a b else []
+      | None => []
+      end /\
+    ps_rr (x_p x') = fst (rr_dispatch (ps_rr (x_p x))).
+Proof. first [ exact C04.C04_unpinned_balanced | intros; eapply C04.C04_unpinned_balanced; eassumption ]. Qed.
+Theorem C04_sticky_pinned : forall c li lc t0 h2 tr br src sport datar st2 stf outss mr restr addr g d ex dst,
+  nth_opt (c_listens c) li = Some lc -> first_transport lc = Some t0 ->
+  pinned li d addr g ex st2 -> gen_ok g -> addr_dest addr = Some dst ->
+  run all_fixed c st2 (h2 ++ [(tr, br, EvUdp li src sport datar)]) = Ok (stf, outss) ->
+  Forall (fun '(now, b, ev) => now < ex /\ ev_ok li d addr b ev) h2 ->
+  parse_message datar = Ok (mr, restr) -> dialog_of mr = Ok d -> tr < ex ->
+  addressed_to_service (mk_env all_fixed c (item_rs_of true) li lc tr br) (udp_from lc) mr ->
+  exists b, last outss [] = if fits_datagram b then [(dst, b)] else [].
+Proof. first [ exact C04.C04_sticky_pinned | intros; eapply C04.C04_sticky_pinned; eassumption ]. Qed.
+Theorem C04_legacy_refuted :
+  let h := firstn 4 ex_hist in
+  let st3 := match run legacy_fixes ex_cfg ex_st0 (firstn 3 ex_hist) with Ok (s, _) => s | _ => ex_st0 end in
+  (* the binding is there and live when the re-INVITE arrives (t = 4 s) *)
+  match nth_p (st_proxies st3) 0 with
+  | Some p => snd (pins_get (sec 4) ex_d (ps_pins p)) = Some (pin_val_backend (s2b "10.0.0.12:5070") 1)
+  | None => False
+  end /\
+  dialog_of (msg_of ex_reinvite) = Ok ex_d /\
+  last (dests (run legacy_fixes ex_cfg ex_st0 h)) [] = [DUdp (s2b "10.0.0.11") 5070] /\
+  last (dests (run all_fixed ex_cfg ex_st0 h)) [] = [DUdp (s2b "10.0.0.12") 5070].
+Proof. first [ exact C04.C04_legacy_refuted | intros; eapply C04.C04_legacy_refuted; eassumption ]. Qed.
+Theorem C04_stale_pin_legacy_refuted :
+  (* when the BYE arrives (t = 5 s) the binding to the object 10.0.0.12:5070#1 is there and live, that object is not
+     registered any more, 10.0.0.11:5070 is *)
+  match nth_p (st_proxies (dyn_st4 stale_legacy_fixes)) 0 with
+  | Some p => snd (pins_get (sec 5) ex_d (ps_pins p)) = Some (pin_val_backend (s2b "10.0.0.12:5070") 1) /\
+              alookup (s2b "10.0.0.12:5070") (ps_backends p) = None /\
+              alookup (s2b "10.0.0.11:5070") (ps_backends p) = Some 0%nat
+  | None => False
+  end /\
+  dialog_of (msg_of ex_bye) = Ok ex_d /\
+  (* INVITE -> .12 (the dynamic backend), 200 -> caller, BYE -> nowhere *)
+  dests (run stale_legacy_fixes dyn_cfg dyn_st0 dyn_hist) =
+    [ []; [DUdp (s2b "10.0.0.12") 5070]; [DUdp (s2b "10.0.0.99") 5060]; []; [] ] /\
+  (* the current tree: BYE -> .11, the registered backend *)
+  dests (run all_fixed dyn_cfg dyn_st0 dyn_hist) =
+    [ []; [DUdp (s2b "10.0.0.12") 5070]; [DUdp (s2b "10.0.0.99") 5060]; []; [DUdp (s2b "10.0.0.11") 5070] ].
+Proof. first [ exact C04.C04_stale_pin_legacy_refuted | intros; eapply C04.C04_stale_pin_legacy_refuted; eassumption ]. Qed.
+Theorem C04_preserved : forall li d addr g ex fx c now branch st ev st' outs,
+  proxy_step fx c now branch st ev = Ok (st', outs) ->
+  ev_ok li d addr branch ev -> now < ex -> gen_ok g -> pinned li d addr g ex st -> pinned li d addr g ex st'.
+Proof. first [ exact C04.C04_preserved | intros; eapply C04.C04_preserved; eassumption ]. Qed.
+Theorem C04_dialog_of_symmetric : forall m m' cid f t f' t',
+  get_raw (s2b "Call-ID") m = Ok cid -> get_raw (s2b "Call-ID") m' = Ok cid ->
+  snd (s_get_from m) = Ok f -> snd (s_get_to m) = Ok t ->
+  snd (s_get_from m') = Ok f' -> snd (s_get_to m') = Ok t' ->
+  fromto_tag f' = fromto_tag t -> fromto_tag t' = fromto_tag f ->
+  dialog_addr (fromto_addr_spec f') = dialog_addr (fromto_addr_spec t) ->
+  dialog_addr (fromto_addr_spec t') = dialog_addr (fromto_addr_spec f) ->
+  dialog_of m' = dialog_of m.
+Proof. first [ exact C04.dialog_of_symmetric | intros; eapply C04.dialog_of_symmetric; eassumption ]. Qed.
+Theorem C04_bref_round_trip : forall b, match b with BObj _ g => gen_ok g | BRR => True end ->
+  bref_of_val (bref_val b) = b.
+Proof. first [ exact C04.bref_round_trip | intros; eapply C04.bref_round_trip; eassumption ]. Qed.
+Theorem C04_key_neq_dialog : forall meth branch d,
+  ~ In "-"%char meth -> has_prefix cookie branch = true ->
+  match index_byte "-"%char d with
+  | Some i => has_prefix cookie (skipn (S i) d) = false
+  | None => True
+  end ->
+  meth ++ "-"%char :: branch <> d.
+Proof. first [ exact C04.key_neq_dialog | intros; eapply C04.key_neq_dialog; eassumption ]. Qed.
+End P_C04.
